@@ -63,6 +63,12 @@ pub trait SFTMap {
     /// The address must have a valid SFT entry in the map. Usually we know this if the address is from an object reference, or from our space address range.
     /// Otherwise, the caller should check with `has_sft_entry()` before calling this method.
     unsafe fn clear(&self, address: Address);
+
+    /// Verification hook (feature `verif`): the type name of the implementation in use.
+    #[cfg(feature = "verif")]
+    fn verif_kind(&self) -> &'static str {
+        std::any::type_name::<Self>()
+    }
 }
 
 pub(crate) fn create_sft_map() -> Box<dyn SFTMap> {
